@@ -257,6 +257,10 @@ pub fn case(s: &str, l: &mut Local) {
 pub fn replay(w: &Value) -> Vec<(String, String)> {
     let run = Run::new("C06", Tier::Quick);
     let s = w["s"].as_str().unwrap_or("").to_string();
+    if w["miri"].as_bool() == Some(true) {
+        // re-running Miri takes minutes; the interpreter is deterministic, the recorded report stands
+        return vec![("parser | Miri | undefined behaviour".to_string(), "see the recorded Miri report".to_string())];
+    }
     if w["guard"].as_bool() == Some(true) {
         if let (_, Some((kind, what))) = run_guard(Tier::Quick) { run.seq(|l| l.violation(format!("Decimal::from_str | guard page monitor | {}", kind), || (what.clone(), json!({"s": what, "guard": true})))); }
     } else {
@@ -433,6 +437,29 @@ pub fn run(tier: Tier) -> i32 {
     run.set_extra("guard_page_cases", json!(gcases));
     if gcases == 0 && guard_machinery.is_none() { guard_machinery = Some("guard child reported no cases".into()); }
 
+    // memory clause, second monitor (thorough): a reduced enumeration interpreted by Miri
+    if th {
+        let engine = std::env::var("VERIF_ENGINE").unwrap_or_else(|_| "/verif/engine".into());
+        let tdir = format!("{}/target/c06miri", std::env::var("VERIF_OUT").unwrap_or_else(|_| "/verif".into()));
+        let out = std::process::Command::new("cargo").args(["+nightly", "miri", "run", "--offline", "--", "3"]).current_dir(format!("{}/c06miri", engine))
+            .env("CARGO_TARGET_DIR", &tdir).env("CARGO_NET_OFFLINE", "true").env_remove("RUSTFLAGS").output();
+        match out {
+            Err(e) => guard_machinery = Some(format!("cannot run Miri: {}", e)),
+            Ok(o) => {
+                let (so, se) = (String::from_utf8_lossy(&o.stdout).to_string(), String::from_utf8_lossy(&o.stderr).to_string());
+                let cases = so.lines().filter_map(|l| l.strip_prefix("miri-cases ")).filter_map(|l| l.split(' ').next().and_then(|x| x.parse::<u64>().ok())).next().unwrap_or(0);
+                if se.contains("Undefined Behavior") {
+                    let msg: String = se.lines().filter(|l| l.contains("Undefined Behavior") || l.contains("-->")).take(4).collect::<Vec<_>>().join(" | ");
+                    run.seq(|l| l.violation("parser | Miri | undefined behaviour".to_string(), || (msg.clone(), json!({"s": "", "miri": true}))));
+                } else if !o.status.success() || cases == 0 {
+                    guard_machinery = Some(format!("Miri run failed: {:?}: {}", o.status, se.chars().rev().take(400).collect::<String>().chars().rev().collect::<String>()));
+                }
+                run.stage("memory clause: Miri", json!({"cases": cases, "enumeration": "all strings of <= 3 symbols over the alphabet, bare and behind 7- and 9-byte digit prefixes; digit strings of length 1..=41 with '.', 'e', e-acute at every position; debug assertions off"}));
+                run.set_extra("miri_cases", json!(cases));
+            }
+        }
+    }
+
     let mut required: Vec<Vec<u64>> = Vec::new();
     required.push(vec![class_code(0, 0, 0, 0)]);
     required.push(vec![class_code(1, 0, 0, 0)]);
@@ -449,7 +476,7 @@ pub fn run(tier: Tier) -> i32 {
         assumptions: vec![
             "reference: hand-written recogniser of the grammar; value from 512-bit integer arithmetic".into(),
             "tolerances (property text silent): error kinds other than Empty not compared; more than 18 fractional digits only because of trailing zeros, and all-zero digits with net exponent beyond +-38/18: Ok(right value) or Err".into(),
-            "the memory clause (no read outside the string) is monitored by the guard-page run (checks/C06 guard stage) and Miri (thorough)".into(),
+            "the memory clause (no read outside the string) is monitored by guard pages (both tiers) and by Miri on a reduced enumeration (thorough tier)".into(),
         ],
         class_name: &class_name,
         required,
